@@ -746,3 +746,111 @@ impl<T> Iterator for RawDrain<'_, T> {
 
 impl<T> ExactSizeIterator for RawDrain<'_, T> {}
 impl<T> FusedIterator for RawDrain<'_, T> {}
+
+/// Read-only introspection used by out-of-tree verification harnesses.
+#[cfg(feature = "verif")]
+pub(crate) mod verif {
+    use super::{RawTable, R};
+    use alloc::vec::Vec;
+
+    /// Size information about one backing table.
+    #[derive(Clone, Copy, Debug, PartialEq, Eq)]
+    pub struct TableState {
+        /// Number of elements stored.
+        pub len: usize,
+        /// `len + growth_left` as reported by hashbrown.
+        pub capacity: usize,
+        /// Number of buckets.
+        pub buckets: usize,
+    }
+
+    /// The old table of an in-progress resize.
+    #[derive(Clone, Debug, PartialEq, Eq)]
+    pub struct OldState {
+        /// The old table itself.
+        pub table: TableState,
+        /// How many elements the cached iterator believes are left.
+        pub cursor_remaining: usize,
+    }
+
+    /// Snapshot of the resize state.
+    #[derive(Clone, Debug, PartialEq, Eq)]
+    pub struct State {
+        /// Elements moved per inserting call.
+        pub r: usize,
+        /// The main table.
+        pub main: TableState,
+        /// The old table, if any.
+        pub old: Option<OldState>,
+    }
+
+    /// Where an element lives.
+    #[derive(Clone, Copy, Debug, PartialEq, Eq)]
+    pub enum Location {
+        /// Not present.
+        Absent,
+        /// In the main table at this bucket index.
+        Main(usize),
+        /// In the old table at this bucket index.
+        Old(usize),
+    }
+
+    impl<T> RawTable<T> {
+        pub(crate) fn verif_state(&self) -> State {
+            State {
+                r: R,
+                main: TableState {
+                    len: self.table.len(),
+                    capacity: self.table.capacity(),
+                    buckets: self.table.buckets(),
+                },
+                old: self.leftovers.as_ref().map(|lo| OldState {
+                    table: TableState {
+                        len: lo.table.len(),
+                        capacity: lo.table.capacity(),
+                        buckets: lo.table.buckets(),
+                    },
+                    cursor_remaining: lo.items.len(),
+                }),
+            }
+        }
+
+        /// Bucket indices the cached iterator will still visit (in order), and the bucket indices
+        /// that are actually full in the old table (in order).
+        pub(crate) fn verif_cursor(&self) -> Option<(Vec<usize>, Vec<usize>)> {
+            let lo = self.leftovers.as_ref()?;
+            if core::mem::size_of::<T>() == 0 {
+                // Bucket indices of zero-sized elements cannot be recovered from an iterator.
+                return Some((Vec::new(), Vec::new()));
+            }
+            let full = unsafe { lo.table.iter().map(|b| lo.table.bucket_index(&b)).collect() };
+            if lo.items.len() != lo.table.len() {
+                // Walking a cursor with a wrong count could read out of bounds.
+                return Some((Vec::new(), full));
+            }
+            let cursor = unsafe {
+                lo.items
+                    .clone()
+                    .map(|b| lo.table.bucket_index(&b))
+                    .collect()
+            };
+            Some((cursor, full))
+        }
+
+        pub(crate) fn verif_locate(&self, hash: u64, eq: impl FnMut(&T) -> bool) -> Location {
+            match self.find(hash, eq) {
+                None => Location::Absent,
+                Some(b) if b.in_main => {
+                    Location::Main(unsafe { self.table.bucket_index(&b.bucket) })
+                }
+                Some(b) => Location::Old(unsafe {
+                    self.leftovers
+                        .as_ref()
+                        .unwrap()
+                        .table
+                        .bucket_index(&b.bucket)
+                }),
+            }
+        }
+    }
+}
